@@ -611,7 +611,9 @@ impl Runner for R {
                 };
                 // "all valid NumericRanges": validity as the crate itself defines it
                 let dom = r.is_valid();
-                rt_line(r.as_string(), NumericRange::from_str, &r, nr_out, dom, class)
+                let (line, verdict) = rt_line(r.as_string(), NumericRange::from_str, &r, nr_out, dom, class);
+                // the crate's validity verdict is part of the compared result
+                (if line.starts_with("ok ") { format!("{} v={}", line, b(dom)) } else { line }, verdict)
             }
             ["rt", "dt", t] => {
                 let Ok(t) = t.parse::<i64>() else { return bad() };
